@@ -222,6 +222,76 @@ func checkC19(c *Ctx) {
 				}
 				return false
 			}
+			// how many recorded sinks the list a close-all function value will walk holds: "live" when the function reads
+			// the variable itself (a literal that captured it), the number of appends behind the slice VALUE it was
+			// given otherwise (a method value binds a copy of its receiver - the slice header as it was then), "?" when
+			// that is not evident
+			var listDepth func(st *ConcState, v ssa.Value, d int) int
+			listDepth = func(st *ConcState, v ssa.Value, d int) int {
+				if d > 8 {
+					return -1
+				}
+				v = resolve(st, v)
+				switch x := v.(type) {
+				case *ssa.Call:
+					if CallBuiltin(x) == "append" && len(x.Call.Args) >= 1 {
+						if k := listDepth(st, x.Call.Args[0], d+1); k >= 0 {
+							return k + 1
+						}
+					}
+					return -1
+				case *ssa.MakeSlice:
+					return 0
+				case *ssa.Const:
+					if x.Value == nil {
+						return 0
+					}
+				case *ssa.ChangeType:
+					return listDepth(st, x.X, d+1)
+				case *ssa.Slice:
+					if _, isArr := types.Unalias(deref(x.X.Type())).Underlying().(*types.Array); isArr && x.Low == nil && x.High == nil {
+						return -1
+					}
+				}
+				return -1
+			}
+			isCloserSlice := func(t types.Type) bool {
+				sl, ok := types.Unalias(t).Underlying().(*types.Slice)
+				if !ok {
+					return false
+				}
+				m, _, _ := types.LookupFieldOrMethod(sl.Elem(), true, nil, "Close")
+				return m != nil
+			}
+			closerSees := func(st *ConcState, v ssa.Value) string {
+				mk, ok := v.(*ssa.MakeClosure)
+				if !ok {
+					return "?"
+				}
+				for _, b := range mk.Bindings {
+					if a, isA := b.(*ssa.Alloc); isA && isCloserSlice(deref(a.Type())) {
+						return "live" // reads the variable when it runs
+					}
+					if isCloserSlice(b.Type()) {
+						if k := listDepth(st, b, 0); k >= 0 {
+							return itoa(k)
+						}
+						return "?"
+					}
+				}
+				// a literal that calls a close-all literal: look through
+				if f, isF := mk.Fn.(*ssa.Function); isF {
+					for i, fv := range f.FreeVars {
+						if i < len(mk.Bindings) {
+							if inner, isMk := resolve(st, mk.Bindings[i]).(*ssa.MakeClosure); isMk && closerVal(inner, 0) {
+								_ = fv
+								return closerSeesInner(st, inner, listDepth, isCloserSlice)
+							}
+						}
+					}
+				}
+				return "?"
+			}
 			cut := 0
 			seqs, trunc := ConcPaths(open, ConcCfg{
 				MaxIter: 2, Cut: &cut,
@@ -235,13 +305,20 @@ func checkC19(c *Ctx) {
 							return "open"
 						}
 						if sc := StaticCallee(x); sc != nil && closeAll[sc] {
-							return "closeall"
+							for _, a := range x.Call.Args {
+								if isCloserSlice(a.Type()) {
+									if k := listDepth(st, a, 0); k >= 0 {
+										return "closeall:" + itoa(k)
+									}
+								}
+							}
+							return "closeall:?"
 						}
 						if !x.Call.IsInvoke() && x.Call.StaticCallee() == nil && closerVal(resolve(st, x.Call.Value), 0) {
-							return "closeall"
+							return "closeall:" + closerSees(st, resolve(st, x.Call.Value))
 						}
 						if mk, ok := x.Call.Value.(*ssa.MakeClosure); ok && closerVal(mk, 0) {
-							return "closeall"
+							return "closeall:" + closerSees(st, mk)
 						}
 						if CallBuiltin(x) == "append" {
 							if sl, ok := types.Unalias(x.Type()).Underlying().(*types.Slice); ok {
@@ -253,7 +330,7 @@ func checkC19(c *Ctx) {
 					case *ssa.Return:
 						if n, known := st.IsNil(x.Results[len(x.Results)-1]); known && n {
 							if len(x.Results) >= 2 && closerVal(resolve(st, x.Results[1]), 0) {
-								return "ret-ok(closer)"
+								return "ret-ok(closer:" + closerSees(st, resolve(st, x.Results[1])) + ")"
 							}
 							return "ret-ok(" + st.Desc(x.Results[1]) + ")"
 						}
@@ -304,7 +381,8 @@ func checkC19(c *Ctx) {
 					return ""
 				},
 			})
-			re := regexp.MustCompile(`^(open (ok record|fail) )*(closeall ret-err|ret-ok\(closer\)) $`)
+			re := regexp.MustCompile(`^(open (ok record|fail) )*(closeall:\S+ ret-err|ret-ok\(closer:\S+\)) $`)
+			reSees := regexp.MustCompile(`(?:closeall:|closer:)([^ )]+)`)
 			var bad []string
 			if os.Getenv("ZV_DEBUG") != "" {
 				for _, sq := range seqs {
@@ -318,6 +396,13 @@ func checkC19(c *Ctx) {
 				okForm := re.MatchString(line)
 				if okForm && failed != strings.HasSuffix(line, "ret-err ") {
 					okForm = false
+				}
+				// the list that is closed / handed out holds every sink recorded on this path (a function value that
+				// reads the variable when it runs sees them all; one bound to an earlier copy of the slice does not)
+				if m := reSees.FindStringSubmatch(line); okForm && m != nil && m[1] != "live" && m[1] != "?" {
+					if m[1] != itoa(strings.Count(line, " record ")) {
+						okForm = false
+					}
 				}
 				if !okForm {
 					bad = append(bad, sq)
@@ -1311,4 +1396,19 @@ func globalStringMapKeys(g *ssa.Global) []string {
 		return nil
 	}
 	return keys
+}
+
+// closerSeesInner: as closerSees (c19 open rule) for a close-all literal reached through another literal.
+func closerSeesInner(st *ConcState, mk *ssa.MakeClosure, listDepth func(*ConcState, ssa.Value, int) int, isCloserSlice func(types.Type) bool) string {
+	for _, b := range mk.Bindings {
+		if a, isA := b.(*ssa.Alloc); isA && isCloserSlice(deref(a.Type())) {
+			return "live"
+		}
+		if isCloserSlice(b.Type()) {
+			if k := listDepth(st, b, 0); k >= 0 {
+				return itoa(k)
+			}
+		}
+	}
+	return "?"
 }
